@@ -31,12 +31,22 @@ fn plain(v: &J) -> J {
     }
 }
 
+/// A pass-through extension: registering it switches the executors to their extension-aware code paths
+/// (resolver_utils/container.rs, list.rs, dynamic/resolve.rs), which must behave like the fast paths.
+struct Noop;
+impl async_graphql::extensions::ExtensionFactory for Noop {
+    fn create(&self) -> std::sync::Arc<dyn async_graphql::extensions::Extension> { std::sync::Arc::new(NoopExt) }
+}
+struct NoopExt;
+impl async_graphql::extensions::Extension for NoopExt {}
+
 fn main() {
     let args: Vec<String> = std::env::args().collect();
     if args.len() < 3 { tool_error("usage: cexec <cases.ndjson> <out.ndjson> [schema.json]"); }
     let cases = read_ndjson(&args[1]);
     let mut out = NdWriter::create(&args[2]);
     let static_schema = fam::schema();
+    let static_schema_ext = fam::builder().extension(Noop).finish();
     let dyn_default: Option<J> = args.get(3).map(|p| serde_json::from_str(&std::fs::read_to_string(p).unwrap()).unwrap());
     if let Some(m) = &dyn_default {
         let diffs = vh::mirror::check(&static_schema, m);
@@ -55,11 +65,14 @@ fn main() {
         if !op_name.is_empty() { request = request.operation_name(op_name); }
         let flavour = case["flavour"].as_str().unwrap_or("static").to_string();
         let result: Result<Result<Response, String>, String> = exec::catch(|| {
+            let with_ext = case["ext"].as_bool().unwrap_or(false);
             if flavour == "static" {
-                exec::run_gated(Box::pin(static_schema.execute(request)), &req_data, &schedule)
+                let schema = if with_ext { &static_schema_ext } else { &static_schema };
+                exec::run_gated(Box::pin(schema.execute(request)), &req_data, &schedule)
             } else {
                 let ts = if case["ts"].is_object() { case["ts"].clone() } else { dyn_default.clone().unwrap_or(J::Null) };
-                match dynfam::build(&ts) {
+                let built = if with_ext { dynfam::builder(&ts).and_then(|b| b.extension(Noop).finish().map_err(|e| e.to_string())) } else { dynfam::build(&ts) };
+                match built {
                     Ok(schema) => exec::run_gated(Box::pin(schema.execute(request)), &req_data, &schedule),
                     Err(e) => Err(format!("dynamic schema build failed: {e}")),
                 }
